@@ -379,7 +379,7 @@ class Controller:
         if not idx:
             return dict(checked=0)
         env = dict(os.environ, PYTHONHASHSEED="4242", VERIF_SEED=str(self.seed))
-        cmd = [sys.executable, os.path.join(VERIF, "check"), self.w.pid, "--digests", ",".join(map(str, idx))]
+        cmd = [sys.executable, os.path.join(VERIF, "check"), self.w.pid, "--tier", self.tier, "--digests", ",".join(map(str, idx))]
         try:
             p = subprocess.run(cmd, env=env, capture_output=True, text=True, timeout=600)
             got = json.loads(p.stdout.strip().splitlines()[-1])
